@@ -59,7 +59,14 @@ func (Engine) Generate(property, scenario string, seed uint64, tier string) *sim
 	}
 	if scenario == "relay-faults" {
 		for k := r.Range(1, 3); k > 0; k-- {
-			switch r.Intn(4) {
+			switch r.Intn(6) {
+			case 4:
+				// The transport under the source endpoint fails: the forwarding
+				// loop ends (closing what it holds) and the session reconnects.
+				p.Ops = append(p.Ops, simkit.Op{Actor: "admin", Kind: "transport-error", N: []int64{int64(r.Range(0, 2000))}})
+			case 5:
+				p.Ops = append(p.Ops, simkit.Op{Actor: "admin", Kind: "pause", N: []int64{int64(r.Range(0, 2000))}},
+					simkit.Op{Actor: "admin", Kind: "resume", N: []int64{int64(r.Range(0, 30000))}})
 			case 0:
 				p.Faults = append(p.Faults, simkit.Fault{Kind: "reset", Key: fmt.Sprintf("conn%d.%s", r.Intn(n), simkit.Pick(r, []string{"client", "server"})), Nth: 1, Arg: int64(r.Range(0, 200))})
 			case 1:
@@ -361,6 +368,22 @@ func execRelay(t *testing.T, plan *simkit.Plan) *simkit.Result {
 				case "terminate":
 					err := mgr.Terminate(context.Background(), sel, "")
 					s.Logf("admin", "terminate -> %v", err)
+				case "resume":
+					err := mgr.Resume(context.Background(), sel, "")
+					s.Logf("admin", "resume -> %v", err)
+					s.Count("probe.resumed", 1)
+				case "transport-error":
+					h.mu.Lock()
+					ep := h.sourceEP
+					h.mu.Unlock()
+					if ep != nil {
+						select {
+						case ep.transportErrors <- errors.New("simulated transport failure"):
+							s.Count("fault.transport_error", 1)
+							s.Logf("admin", "the source transport fails")
+						default:
+						}
+					}
 				}
 				// After cancellation every forwarded connection must be closed
 				// (checked at the next quiescent point: the relaying
